@@ -149,7 +149,8 @@ theorem mreach_gate_inv {cfg : SrvCfg} {n : Nat} {s : MState} {log : List String
     have hrst := mstep_rst hs
     rcases mstep_cases hs with ⟨hp, hq, -, hne⟩ | ⟨hR, h2, rfl, hrq, c, rest, hin, he⟩ | ⟨-, l, rest, hrq, rfl, -⟩ |
       ⟨hR, a, p, pe, hns, hp, rfl, -⟩ |
-      ⟨-, -, -, -, rest, hrq, rfl, -⟩ | ⟨-, -, -, -, -, -, -, rfl, -⟩ | ⟨-, -, -, -, -, -, -, -, rfl, -⟩
+      ⟨-, -, -, -, rest, hrq, rfl, -⟩ | ⟨-, -, -, -, -, -, -, rfl, -⟩ | ⟨-, -, -, -, -, -, -, -, rfl, -⟩ |
+      ⟨-, -, -, -, -, -, -, -, rfl, -⟩ | ⟨-, -, -, -, -, m, -, rfl, -⟩
     · have hr : s'.rst = s.rst := by
         rcases hrst with h | ⟨h1, h2⟩
         · exact h
@@ -200,6 +201,8 @@ theorem mreach_gate_inv {cfg : SrvCfg} {n : Nat} {s : MState} {log : List String
       rcases hpre with h | ⟨m, id, toks, h⟩
       · exact .inl h
       · simp at h
+    · exact ih
+    · exact ih
 
 /-- **C10 on the Metadata server model.** In every reachable state, if any pool task exists or is owed by the
     reader, the init request has been received (and, the reader being sequential, `initialize` has returned). -/
@@ -230,6 +233,9 @@ theorem mstep_adapter_thread {s s' : MState} {env : InitEnv} {tid : String} {op 
        simp only [Option.some.injEq, Prod.mk.injEq] at h; obtain ⟨rfl, rfl⟩ := h
        simp at hc; done)
     | (exfalso
+       simp only [Option.some.injEq, Prod.mk.injEq] at h; obtain ⟨rfl, rfl⟩ := h
+       rcases hc with hc | hc <;> rcases mem_ioEffects hc with h | h <;> cases h)
+    | (exfalso
        simp only [Option.some.injEq] at h
        have g := runLocal_no_adapter h c
        exact hc.elim g.1 g.2)
@@ -241,28 +247,31 @@ theorem mstep_adapter_thread {s s' : MState} {env : InitEnv} {tid : String} {op 
 
 /-- **C18 on the Metadata server model: the reader is never blocked by the pool.** Whatever the pool tasks are
     doing, a running reader can take the next chunk of bytes, or enqueue the reply it is holding. -/
-theorem mstep_reader_enabled (s : MState) (env : InitEnv) (hr : s.rthr = 2) :
-    (s.rq = [] → s.inbound ≠ [] → (mstep s env "R" .recv).isSome) ∧
+theorem mstep_reader_enabled (s : MState) (env : InitEnv) (hr : s.rthr = 2) (hx : s.exited = false) :
+    (s.rq = [] → (s.inbound ≠ [] ∨ s.inEnd = true) → (mstep s env "R" .recv).isSome) ∧
     (∀ l rest, s.rq = .reply l :: rest → (mstep s env "R" .put).isSome) := by
   refine ⟨?_, ?_⟩
   · intro h1 h2
     cases hin : s.inbound with
-    | nil => exact absurd hin h2
-    | cons c rest => simp [mstep, hr, h1, hin]
+    | nil =>
+      rcases h2 with h2 | h2
+      · exact absurd hin h2
+      · simp [mstep, hx, hr, h1, hin, h2]
+    | cons c rest => simp [mstep, hx, hr, h1, hin]
   · intro l rest h1
-    simp [mstep, hr, h1]
+    simp [mstep, hx, hr, h1]
 
 /-- **… nor is the writer.** -/
-theorem mstep_writer_enabled (s : MState) (env : InitEnv) (hw : s.wthr = 2) :
+theorem mstep_writer_enabled (s : MState) (env : InitEnv) (hw : s.wthr = 2) (hx : s.exited = false) :
     (s.wsend = none → s.sendQ ≠ [] → (mstep s env "W" .get).isSome) ∧
     (∀ m, s.wsend = some m → (mstep s env "W" .send).isSome) := by
   refine ⟨?_, ?_⟩
   · intro h1 h2
     cases hq : s.sendQ with
     | nil => exact absurd hq h2
-    | cons c rest => cases c <;> simp [mstep, hw, h1, hq]
+    | cons c rest => cases c <;> simp [mstep, hx, hw, h1, hq]
   · intro m h1
-    simp [mstep, hw, h1]
+    simp [mstep, hx, hw, h1]
 
 /-! ### Data server -/
 
